@@ -83,6 +83,11 @@ def specs(draw, tier):
             spec["fine"] = True
         n = int(math.ceil(rc + 5 * wc + 2)) + draw(st.integers(0, 10))
         spec["grid"] = {"n": n, "dr": base}
+        if draw(st.integers(0, 3)) == 1:
+            # an annular / shell grid: the innermost cells up to a fraction of the droplet radius are missing
+            k_in = max(1, int(rc * draw(st.sampled_from([0.15, 0.3, 0.5, 0.65]))))
+            spec["grid"]["k_in"] = k_in
+            spec["grid"]["n"] = n - k_in if n - k_in >= int(math.ceil(rc + 5 * wc + 2)) - k_in else n
         dim = 2 if fam == "polar" else 3
         spec["droplets"] = [{"position": [0.0] * dim, "radius": gen.r6(rc * base), "interface_width": gen.r6(wc * base)}]
     else:
@@ -117,14 +122,14 @@ def build_grid(spec):
     fam, g = spec["family"], spec["grid"]
     if fam == "cart":
         return gen.build_cart(g)
-    if fam == "polar":
-        from pde import PolarSymGrid
+    if fam in ("polar", "spherical"):
+        from pde import PolarSymGrid, SphericalSymGrid
 
-        return None, PolarSymGrid(g["n"] * g["dr"], g["n"])
-    if fam == "spherical":
-        from pde import SphericalSymGrid
-
-        return None, SphericalSymGrid(g["n"] * g["dr"], g["n"])
+        cls = PolarSymGrid if fam == "polar" else SphericalSymGrid
+        k_in = g.get("k_in", 0)
+        if k_in:
+            return None, cls((k_in * g["dr"], (k_in + g["n"]) * g["dr"]), g["n"])
+        return None, cls(g["n"] * g["dr"], g["n"])
     return None, gen.build_cyl(g)
 
 
@@ -206,6 +211,8 @@ class C05(Property):
         ctx.cls(fam, f"thr:{spec['threshold']}", f"intensity:{opt}", f"n{len(drops)}")
         if spec.get("fine"):
             ctx.cls("finely-resolved")
+        if spec["grid"].get("k_in"):
+            ctx.cls("inner-radius>0")
         straddle = False
         if fam == "cart":
             for d in drops:
